@@ -443,3 +443,48 @@ def r4_enum_exhaustive(ck, P):
             else:
                 ck.violation(R, rp.name, 'repeat modes (%s)' % un, 'the wrap helper does not handle repeat mode(s) %s' % sorted(need - cases), '%s:%d' % (un, rp.line))
             break
+
+
+def r6_coordinate_siblings(ck, P):
+    """T-IND / sibling agreement: the components of one position vector advance together"""
+    from .factors import _loops_of
+    R = ck.rule('C08-R6', 'in every sampling loop the loop-carried components initialised from one position vector (x, y and the homogeneous w) are all advanced by a loop-invariant step on every path to the back edge: no component is skipped for pixels the loop otherwise passes over (masked-out or clipped)', floor=5)
+    n = 0
+    for un, u in P.units.items():
+        L = _loops_of(u) if any(k in un for k in ('bits-image', 'fast-path', 'gradient', 'sse2', 'ssse3', 'mmx')) else {}
+        for fn, loops in L.items():
+            f = u.functions.get(fn)
+            if f is None:
+                continue
+            for lp in loops:
+                groups = {}
+                for p in lp['phis']:
+                    ph = f.by_id[p['v']]
+                    if not ph.ty.startswith('i') or ph.ty in ('i1', 'i8'):
+                        continue
+                    init = [a for a, bb in zip(ph.a, ph.d['bb']) if bb not in lp['blocks']]
+                    if len(init) != 1 or init[0][0] != 'v':
+                        continue
+                    ld = f.v(f.strip_casts(init[0]))
+                    if ld is None or ld.op != 'load':
+                        continue
+                    base = f.root(f.path(ld.a[0]))
+                    if base[0] != 'alloca':
+                        continue
+                    lf = f.last_field(f.path(ld.a[0])) or ''
+                    if 'vector' not in lf:
+                        continue
+                    groups.setdefault(base, []).append((ph, p))
+                for base, mem in groups.items():
+                    if len(mem) < 2:
+                        continue
+                    n += 1; ck.saw(f)
+                    aff = [ph for ph, p in mem if p['step'] is not None]
+                    non = [ph for ph, p in mem if p['step'] is None]
+                    names = '/'.join(ph.dv or '?' for ph, p in mem)
+                    if aff and non:
+                        ck.violation(R, f.name, 'position components %s' % names, '%s advances %s on every iteration but %s only on some paths (loop at block %d): after a skipped pixel the remaining pixels of the scanline are sampled with a stale component' % (f.name, '/'.join(ph.dv or '?' for ph in aff), '/'.join(ph.dv or '?' for ph in non), lp['header']), non[0].loc())
+                    else:
+                        ck.ok(R, '%s loop %d: %s' % (f.name, lp['header'], names))
+    if n == 0:
+        ck.incomplete(R, 'no sampling loop with a loop-carried position vector found')
